@@ -34,12 +34,16 @@ class EMI(EAB, EX):
     pass
 
 
+class ETY(EA, TypeError):
+    """application error that is also one of Python's own classes"""
+
+
 # impostors: same class NAME as a member of the hierarchy, other ancestry
 # (handlers are selected by name; a per-name memo must not confuse them)
 EAB_X = type('EAB', (EX,), {})
 EX_A = type('EX', (EA,), {})
 
-EXC = {c.__name__: c for c in (EA, EAB, EABC, EX, EMI, KeyError, LookupError,
+EXC = {c.__name__: c for c in (EA, EAB, EABC, EX, EMI, ETY, KeyError, LookupError,
                                ValueError, IndexError, AttributeError,
                                TypeError, RuntimeError, ZeroDivisionError,
                                KeyboardInterrupt, Exception)}
@@ -179,6 +183,8 @@ class RunEnv:
         if 'seqobj' in r:
             return SeqObj(self, r['seqobj'], r.get('truth', True),
                           r.get('len', 0))
+        if 'callobj' in r:
+            return CallObj(self, r['callobj'])
         if 'key' in r:
             return Key(self, r['key'], r['rank'])
         if 'exc' in r:
@@ -297,6 +303,21 @@ class BoolObj:
 
     def __str__(self):
         return 'boolobj'
+
+
+class CallObj:
+    """a value that is itself callable (a closure, an instance with
+    __call__): a namespace that holds it calls it on every look-up"""
+
+    def __init__(self, env, name):
+        self._env, self._name = env, name
+
+    def __call__(self):
+        r = self._env.invoke(self._name + '.call')
+        return r if isinstance(r, str) and r else 'called(%s)' % self._name
+
+    def __str__(self):
+        return 'callobj'
 
 
 class SeqObj(BoolObj):
